@@ -161,6 +161,12 @@ func runC02(w *W) {
 		w.Sig("vm")
 	}
 	cv := j2t.NewBinaryConv(opts)
+	if t.Chance(1, 4, "reopt.use") {
+		// the converter starts life with other options and gets these by SetOptions
+		cv = j2t.NewBinaryConv(otherOpts(t, opts))
+		cv.SetOptions(opts)
+		w.Count("converter_reconfigured_by_SetOptions")
+	}
 	w.Logf("conv.Options: %+v  flavour=%s", opts, flavour)
 	ctx := context.Background()
 	if reqBase != nil {
